@@ -1,1 +1,43 @@
-//! placeholder
+//! `error::error_expected` through the feature-gated public wrapper (C12).
+use crate::common::*;
+use rustemo::{Context, Error, Input, LRContext, Position, SourceSpan};
+
+macro_rules! error_expected_span {
+    ($name:ident, $n:expr) => {
+        /// C12: the error built for "expected .." carries the zero-width span at the context's
+        /// position (offset, line, column) and the file name, and ignores the context's span
+        /// (the span of the previously shifted token). `fmt::format` is stubbed: the message
+        /// text is not a subject.
+        #[kani::proof]
+        #[kani::unwind(6)]
+        #[kani::stub(std::fmt::format, no_fmt)]
+        #[kani::stub(std::env::var_os, no_env)]
+        pub fn $name() {
+            let pos: usize = kani::any();
+            let line: usize = kani::any();
+            let col: usize = kani::any();
+            kani::assume(pos <= 3 && line >= 1 && line <= 1000 && col <= 1000);
+            let p = if kani::any() { Position::new(pos, line, col) } else { Position::from(pos) };
+            let mut ctx: Ctx = LRContext::new(p);
+            let a: usize = kani::any();
+            let b: usize = kani::any();
+            kani::assume(a <= b && b <= pos);
+            ctx.set_span(SourceSpan::new(Position::from(a), Position::from(b)));
+            let expected = [Tk(1), Tk(2), Tk(3)];
+            let e = rustemo::verif::error_expected("abc", "f", &ctx, &expected[..$n]);
+            match &e {
+                Error::ParseError(pe) => {
+                    let sp = pe.span.unwrap();
+                    assert!(sp.start == p, "C12 error position is the lexing position");
+                    assert!(sp.end == p, "C12 error span is zero-width");
+                    assert!(pe.file.is_some(), "file name passed through");
+                }
+                _ => assert!(false, "a syntax error is a ParseError"),
+            }
+            kani::cover!(p.line_col.is_some() && a < pos, "line/column position, earlier context span");
+            std::mem::forget(e);
+        }
+    };
+}
+error_expected_span!(error_expected_span_1, 1);
+error_expected_span!(error_expected_span_2, 2);
